@@ -8,7 +8,7 @@ EmitMixed ==
   THEN PrintT(ToJson([toks |-> toks, text |-> Text(toks), depth |-> Depth(toks), idepth |-> InlinedDepth(toks),
                       fields |-> FieldCount(toks), lims |-> LimitPairs(toks), nmut |-> NMut(toks),
                       implF |-> ImplFields(toks, FALSE), implD |-> ImplDepthMax(toks, FALSE),
-                      implFx |-> ImplFields(toks, TRUE), implDx |-> ImplDepthMax(toks, TRUE)]))
+                      implFx |-> ImplFields(toks, TRUE), implDx |-> ImplDepthMax(toks, TRUE), implTx |-> ImplTotalDepth(toks, TRUE)]))
   ELSE TRUE
 GenMixedConstraint == EmitMixed
 =============================================================================
